@@ -4,7 +4,7 @@ from pbt import cellsim
 from pbt import mastersim
 
 
-def run_case(case, stats, oracle_fns, watch):
+def run_case(case, stats, oracle_fns, watch, quiescent_checks=()):
     """Run an E1 case, applying oracle_fns after every cycle.
 
     watch(sim, info, flags) records the non-triviality evidence in flags.
@@ -19,7 +19,9 @@ def run_case(case, stats, oracle_fns, watch):
 
     if case.get('engine') == 'e2':
         stats.count('engine:e2')
-        sim = mastersim.MasterSim(case, observers=[observe], stats=stats)
+        sim = mastersim.MasterSim.__new__(mastersim.MasterSim)
+        sim.quiescent_checks_init = list(quiescent_checks)
+        sim.__init__(case, observers=[observe], stats=stats)
         sim.run()
         if sim.master_crashes:
             flags['master_crashes'] = sim.master_crashes
